@@ -124,6 +124,63 @@ def grids(ctx):
             yield ctx.rng.randint(1, 12), ctx.rng.randint(1, 12), ctx.rng.randint(1, 12)
 
 
+def array_arguments(ctx, cases, res):
+    """the numbering / connectivity methods called with scalars, 1-D arrays and index GRIDS (2-D / 3-D arrays, as produced by
+    np.meshgrid): the result must have the shape of the index arrays (+ the corner axis LAST for connectivities) and hold,
+    entry by entry, what the MODEL's tables say for that Cartesian index"""
+    pm = _pm()
+    rng = ctx.rng
+    done = 0
+    for c, m in zip(cases, res):
+        if "ok" not in m or done >= (40 if ctx.quick else 400):
+            continue
+        nelx, nely, nelz = c["nelx"], c["nely"], c["nelz"]
+        nz = max(nelz, 1)
+        if nelx * nely * nz > 400:
+            continue
+        done += 1
+        mo = m["ok"]
+        E = np.array(mo["elements"], dtype=np.int64).reshape(nelx, nely, nz)
+        N = np.array(mo["nodes"], dtype=np.int64).reshape(nelx + 1, nely + 1, nelz + 1)
+        C = np.array(mo["conn"], dtype=np.int64)
+        d = pm.DomainDefinition(nelx, nely, nelz)
+        for shp in [(), (rng.randint(1, 5),), (rng.randint(1, 3), rng.randint(1, 3)), (2, rng.randint(1, 3), rng.randint(1, 2)),
+                    (rng.randint(2, 3),) * 2, (2, 2, 2)]:
+            def idx(hi):
+                a = np.array([rng.randint(0, hi - 1) for _ in range(int(np.prod(shp)) if shp else 1)], dtype=np.int64)
+                return int(a[0]) if shp == () else a.reshape(shp)
+            i, j, k = idx(nelx), idx(nely), idx(nz)
+            args = (i, j) if (nelz == 0 and rng.random() < 0.5) else (i, j, k if nelz else (0 if shp == () else np.zeros(shp, dtype=np.int64)))
+            kk = args[2] if len(args) == 3 else (0 if shp == () else np.zeros(shp, dtype=np.int64))
+            case = {"op": "array-args", "grid": [nelx, nely, nelz], "shape": list(shp), "i": np.asarray(i).tolist(),
+                    "j": np.asarray(j).tolist(), "k": np.asarray(kk).tolist()}
+            r = call_impl(lambda: (np.asarray(d.get_elemnumber(*args)), np.asarray(d.get_elemconnectivity(*args))))
+            if r[0] == "err":
+                ctx.disagree("array-args", case, r[1], "ok", r[2])
+                continue
+            en, ec = r[1]
+            want_n = E[i, j, kk]
+            want_c = C[want_n]                     # index shape + (2^dim,)
+            ok = ctx.compare_exact("array-args", case, {"elemnumber": [list(en.shape), en.flatten().tolist()],
+                                                        "conn": [list(ec.shape), ec.flatten().tolist()]},
+                                   {"elemnumber": [list(np.shape(want_n)), np.asarray(want_n).flatten().tolist()],
+                                    "conn": [list(np.shape(want_c)), np.asarray(want_c).flatten().tolist()]},
+                                   key=("array-args", nelx, nely, nelz, shp, str(case["i"]), str(case["j"]), str(case["k"])))
+            if not ok:
+                ctx.oracle_fail(f"get_elemconnectivity / get_elemnumber with index arrays of shape {shp} on grid {nelx}x{nely}x{nelz}: "
+                                f"result shape {list(ec.shape)} / values differ from the per-index connectivity", case)
+            # node numbers / positions with index arrays
+            ni, nj, nk = idx(nelx + 1), idx(nely + 1), idx(nelz + 1)
+            r = call_impl(lambda: np.asarray(d.get_nodenumber(ni, nj, nk)))
+            if r[0] == "err":
+                ctx.disagree("array-args", case, r[1], "ok", r[2])
+                continue
+            ctx.compare_exact("array-args.node", case, [list(r[1].shape), r[1].flatten().tolist()],
+                              [list(np.shape(N[ni, nj, nk])), np.asarray(N[ni, nj, nk]).flatten().tolist()],
+                              key=("array-args.node", nelx, nely, nelz, shp, str(np.asarray(ni).tolist()), str(np.asarray(nj).tolist())))
+            ctx.branch("array-args.rank%d" % len(shp))
+
+
 def correspondence(ctx):
     # ---- grids (mode E) ------------------------------------------------------------------
     cases, impls = [], []
@@ -150,6 +207,7 @@ def correspondence(ctx):
         ctx.compare_exact("grid", c, i, m["ok"], key=("grid", c["nelx"], c["nely"], c["nelz"], c["ndof"]))
     if cases:
         ctx.sample({"request": cases[len(cases) // 2], "conn_first_row": impls[len(cases) // 2]["conn"][0]})
+    array_arguments(ctx, cases, res)
 
     # ---- shape functions -------------------------------------------------------------------
     n = 60 if ctx.quick else 600
@@ -253,6 +311,24 @@ def replay(ctx, data):
     elif w.get("op") == "shape":
         r = call_impl(impl_shape, w["dim"], w["s"], w["p"])
         why = r[2] if r[0] == "err" else oracle_shape(w["dim"], w["s"], w["p"], r[1][2])
+    elif w.get("op") == "array-args":
+        # independent re-evaluation: per index tuple, the corners in the documented local order
+        pm = _pm()
+        nelx, nely, nelz = w["grid"]
+        d = pm.DomainDefinition(nelx, nely, nelz)
+        i, j, k = (np.array(w[a], dtype=np.int64) for a in "ijk")
+        dim = 2 if nelz == 0 else 3
+        ec = np.asarray(d.get_elemconnectivity(i, j, k))
+        why = None
+        if list(ec.shape) != list(i.shape) + [2 ** dim]:
+            why = f"get_elemconnectivity returns shape {list(ec.shape)} for index arrays of shape {list(i.shape)}"
+        else:
+            for pos in np.ndindex(*i.shape):
+                want = [int(d.get_nodenumber(int(i[pos]) + (l & 1), int(j[pos]) + ((l >> 1) & 1), int(k[pos]) + ((l >> 2) & 1)))
+                        for l in range(2 ** dim)]
+                if [int(v) for v in ec[pos]] != want:
+                    why = f"entry {pos}: {ec[pos].tolist()} expected corners {want}"
+                    break
     else:
         return {"still_failing": False, "note": "replay file names no failing input (see no_longer_checks)"}
     return {"still_failing": bool(why), "what": why}
